@@ -74,7 +74,8 @@ def prefix_free(codes: list[bytes]) -> bool:
 
 
 def table_file(entries: list[tuple[str, bytes]]) -> str:
-    return "".join(f"{code.hex().upper() if i % 2 else code.hex()}={text}\n" for i, (text, code) in enumerate(entries))
+    # (a newline inside an entry text is spelled backslash + n in the file, as the table format has it)
+    return "".join(f"{code.hex().upper() if i % 2 else code.hex()}={text.replace(chr(10), chr(92) + 'n')}\n" for i, (text, code) in enumerate(entries))
 
 
 def parse_table_file(text: str) -> list[tuple[str, bytes]]:
@@ -83,7 +84,7 @@ def parse_table_file(text: str) -> list[tuple[str, bytes]]:
     for ln in text.split("\n"):
         if "=" in ln:
             code, t = ln.split("=", 1)
-            out.append((t, bytes.fromhex(code)))
+            out.append((t.replace(chr(92) + "n", chr(10)), bytes.fromhex(code)))
     return out
 
 
@@ -95,3 +96,4 @@ def selftest() -> None:
     assert tokenize(e, "[0x")[0] == ("skip", "[")
     assert matched_text(e, "xabcx b") == "abc b" and overlaps(e, "ab") and not overlaps(e, "b ")
     assert prefix_free([b"\x01", b"\x02\x01"]) and not prefix_free([b"\x01", b"\x01\x02"])
+    assert table_file([("a\nb", b"\x07")]) == "07=a\\nb\n" and parse_table_file("07=a\\nb\n") == [("a\nb", b"\x07")]
